@@ -59,7 +59,9 @@ example : (demo 30).streams.length = 2 ∧ ((demo 30).stream 0).segments.length 
 * the open segment has id `nextSegmentID`; a stream without open segment lists nothing;
 * part ids are consecutive across the whole stream (parts of the listed segments, then of the open one)
   and end at `nextPartID − 1`; the open part has id `nextPartID`; only Low-Latency advertises parts;
-* an open part exists exactly when an open fMP4 segment exists. -/
+* an open part exists exactly when an open fMP4 segment exists;
+* every listed segment is finalized: it ends exactly where the next listed segment — or, for the last one, the
+  open segment — starts (`Tiled`). -/
 theorem c04_inv {cfg : Cfg} {st0 : State} (h : start cfg = .ok st0) (ops : List WriteOp) (si : Nat)
     (hsi : si < (run st0 ops).streams.length) :
     let st := run st0 ops
@@ -77,13 +79,14 @@ theorem c04_inv {cfg : Cfg} {st0 : State} (h : start cfg = .ok st0) (ops : List 
     (∃ a, (allParts s).map (·.id) = List.range' a (allParts s).length ∧ a + (allParts s).length = s.nextPartID) ∧
     (∀ p, s.nextPart = some p → p.id = s.nextPartID) ∧
     (st.cfg.variant ≠ .ll → allParts s = []) ∧
-    (if st.cfg.variant = .mpegts then s.nextPart = none else s.nextPart.isSome = s.nextSegment.isSome) := by
+    (if st.cfg.variant = .mpegts then s.nextPart = none else s.nextPart.isSome = s.nextSegment.isSome) ∧
+    (∀ o, s.nextSegment = some o → Tiled s.segments o.startDTS) := by
   intro st s
   obtain ⟨hinv, _⟩ := reachable_inv h ops
   have hI := hinv.inv0.streams si hsi
   have hS := hinv.sync si hsi
   refine ⟨?_, hI.msn.get_seg, ?_, fun hll => ⟨hI.llNext hll, hI.llReal hll⟩, hI.count, hI.countEmpty, hI.len,
-    hI.openId, hI.closedEmpty, ?_, hI.partId, hI.partsLL, hS⟩
+    hI.openId, hI.closedEmpty, ?_, hI.partId, hI.partsLL, hS, hI.tiled⟩
   · obtain ⟨gs, rs, hgr⟩ := hI.gtr.split
     refine ⟨gs, rs, hgr, fun hne => ?_⟩
     apply Classical.byContradiction
